@@ -1,4 +1,5 @@
 """C18 — AtomicBaseTime readers and try_update never wait for a writer (all clauses are shapes)."""
+import re
 from .util import *  # noqa: F401,F403
 from .abt import ABT
 from engine.woodlint.core import table
@@ -120,7 +121,8 @@ def r18_2(cx):
     allowed = {m.new.name, m.update.name, m.try_update.name}
     for name, f in sorted(users.items()):
         cx.count_sites()
-        ok = name in allowed or (f.d.get('derived') and 'Debug' in name)
+        # (a closure is part of the function it is written in)
+        ok = re.sub(r'(::\{closure#\d+\})+$', '', name) in allowed or (f.d.get('derived') and 'Debug' in name)
         cx.check(ok, 'lock-user', f, None, 'mentions self.%s (writer side or derived Debug, which uses try_lock)' % m.lock,
                  fail_detail='function outside {new, update, try_update} touches the writer lock')
     cx.check(m.update.name in users and m.try_update.name in users, 'writers-lock', m.update, None, 'update and try_update both use the lock',
